@@ -6,8 +6,10 @@ Space (every member is visited, nothing sampled):
              optional {default, False, True} x nullable item symbol — every combination the constructor
              accepts (30); MapProds: brackets x allow_final_delimiter x optional x key symbol terminal /
              choice non-terminal (16); ProdSequence over the template symbols directly or over VALUE.
-             quick: every list configuration with the default map and vice versa plus four crossings;
-             thorough: the full product.
+             quick: every list configuration with the default map and vice versa plus four crossings
+             (sequence over the template symbols; over VALUE for the default pair and the crossings);
+             thorough: the full product with both sequence embeddings, and values one node larger on
+             the quick grammar set.
   data     : every value of <= S nodes (atoms a/b, omitted items, lists, maps with repeated keys,
              sequences, absent optional containers), nesting depth <= D, width <= W
   text     : the data rendered with every gap layout (nothing / line breaks / comments / mixed incl.
@@ -271,6 +273,8 @@ def judge(parser, lopt, mopt, data, layout_name, fd_mode, acc):
                 T.diff(T.expected_with_omitted_tail(data, T.LOpt(True, True, False, None, True),
                                                     T.FD_MODES[fd_mode]), got) is None:
             d = "final-delimiter-adds-element"
+        elif T.diff(T.expected(data, first_wins=True), got) is None:
+            d = "map-repeated-key-keeps-first-value"
         return (d, feats, ("C05:" + d, "cleaned value differs from the data the text denotes", repr(got), repr(want)))
     orders = T.result_key_orders(got, [])
     wanted = T.key_orders(data)
